@@ -483,6 +483,80 @@ fn c14_law_universe(rep: &mut Report, tier: Tier, leaves: &[RV], keys: &[&str], 
     rep.bounds[uname] = json!({"values": vals.len(), "max_nodes": n, "leaves": leaves.iter().map(|l| l.show()).collect::<Vec<_>>(), "keys": keys});
 }
 
+/// C14 at depth: the laws on pairs of small values that differ only in *where a container ends*
+/// ([[1],2] against [[1,2]], {"a":{"b":1},"c":2} against {"a":{"b":1,"c":2}} ...) and on their
+/// neighbours, bare and under d enclosing arrays / objects for d on both sides of 128 and 256 and
+/// at 1 000 - a comparison that changes its algorithm below some depth (to bound its recursion,
+/// say) is only seen there. `==` must be structural, `cmp` Equal exactly when equal and
+/// antisymmetric, `partial_cmp` and the operators in line with `cmp`, equal values hash alike.
+fn c14_deep(rep: &mut Report) {
+    let n = |s: &str| RV::num(s);
+    let a = |v: Vec<RV>| RV::Arr(v);
+    let o = |e: Vec<(&str, RV)>| RV::Obj(e.into_iter().map(|(k, v)| (k.to_string(), v)).collect());
+    let inner: Vec<RV> = vec![
+        a(vec![a(vec![n("1")]), n("2")]),
+        a(vec![a(vec![n("1"), n("2")])]),
+        a(vec![n("1"), n("2")]),
+        a(vec![a(vec![n("1")]), a(vec![n("2")])]),
+        a(vec![n("1"), a(vec![n("2")])]),
+        a(vec![a(vec![]), a(vec![])]),
+        a(vec![a(vec![a(vec![])])]),
+        a(vec![]),
+        n("1"),
+        o(vec![("a", o(vec![("b", n("1"))])), ("c", n("2"))]),
+        o(vec![("a", o(vec![("b", n("1")), ("c", n("2"))]))]),
+        o(vec![("a", o(vec![("b", n("1"))]))]),
+        o(vec![("a", a(vec![n("1")])), ("c", n("2"))]),
+        o(vec![("a", a(vec![n("1"), n("2")]))]),
+        o(vec![]),
+    ];
+    let depths = [0usize, 1, 2, 63, 64, 65, 127, 128, 129, 130, 255, 256, 257, 1000];
+    let wrap = |v: &RV, d: usize, objects: bool| {
+        let mut v = v.clone();
+        for level in 0..d {
+            v = if objects && level % 2 == 0 { RV::Obj(vec![("w".to_string(), v)]) } else { RV::Arr(vec![v]) };
+        }
+        v
+    };
+    let items: Vec<(usize, bool)> = depths.iter().flat_map(|&d| [(d, false), (d, true)]).collect();
+    let t = explore::par_tally(items, |(d, objects), t| {
+        let rvs: Vec<RV> = inner.iter().map(|v| wrap(v, d, objects)).collect();
+        let vals: Vec<Value> = rvs.iter().map(bridge::to_value).collect();
+        let hashes: Vec<u64> = vals.iter().map(std_hash).collect();
+        use std::cmp::Ordering::*;
+        for i in 0..vals.len() {
+            for j in 0..vals.len() {
+                t.evals += 1;
+                let (x, y) = (&vals[i], &vals[j]);
+                let want_eq = inner[i] == inner[j];
+                let c = x.cmp(y);
+                let case = || json!({"kind": "deep-pair", "depth": d, "objects": objects, "a": inner[i].show(), "b": inner[j].show()});
+                let mut bad = Vec::new();
+                if (x == y) != want_eq || (x != y) == want_eq {
+                    bad.push(format!("== is {}, the values are structurally {}", x == y, if want_eq { "equal" } else { "different" }));
+                }
+                if (c == Equal) != want_eq || x.partial_cmp(y) != Some(c) || y.cmp(x) != c.reverse() {
+                    bad.push(format!("cmp = {c:?}, partial_cmp = {:?}, cmp reversed = {:?}", x.partial_cmp(y), y.cmp(x)));
+                }
+                if (x < y) != (c == Less) || (x <= y) != (c != Greater) || (x > y) != (c == Greater) || (x >= y) != (c != Less) {
+                    bad.push("the comparison operators disagree with cmp".to_string());
+                }
+                if want_eq && hashes[i] != hashes[j] {
+                    bad.push("equal values hash differently".to_string());
+                }
+                for b in bad {
+                    t.violation("", format!("under {d} enclosing {}: {} against {}: {b}", if objects { "objects / arrays" } else { "arrays" }, inner[i].show(), inner[j].show()), case());
+                }
+            }
+        }
+        // (the values are released iteratively: their drop glue is recursive)
+        t.nontrivial(&("deep", d, objects));
+        t.outcome("deep pairs");
+    });
+    rep.bounds["deep_pairs"] = json!({"inner_values": inner.len(), "depths": depths, "wrappers": ["arrays", "objects and arrays alternating"]});
+    rep.absorb(t);
+}
+
 /// C14, leaked guards: `remove`, `insert` and `insert_front` hand out guards that finish their
 /// work when dropped; `mem::forget` on such a guard (safe Rust) stops the work half-way. Whatever
 /// entries the object is left with, its equality, ordering and hashing must be those of a
@@ -1417,6 +1491,7 @@ fn main() {
             c14_routes(&mut rep);
             c14_wide_laws(&mut rep, args.tier);
             c14_leaks(&mut rep);
+            c14_deep(&mut rep);
             rep.rule = "histories: every reachable state of the C06 search is compared (==, cmp, partial_cmp, hash, also wrapped in Value) with from_vec / from_iter / clone builds of the same entry list, under three hash modes; laws: all ordered pairs and all triples a<=b<=c of the universe of all values up to the node bound".into();
             rep.assumptions.push("std's DefaultHasher::new() (fixed keys) is the probe hasher; equality of hashes is required only for equal values".into());
             rep.finish()
